@@ -95,7 +95,7 @@ impl PacketNumber {
         } else if range < 1 << 16 {
             Self::U16(pn as u16)
         } else if range < 1 << 24 {
-            Self::U24(pn as u32)
+            Self::U24(pn as u32 & 0x00ff_ffff)
         } else if range < 1 << 32 {
             Self::U32(pn as u32)
         } else {
